@@ -4,6 +4,9 @@ From Coq Require Export String Ascii NArith ZArith Bool.
 From Coq Require Export List.
 Export ListNotations.
 Open Scope string_scope.
+Open Scope list_scope.
+(* `++` is list append everywhere in this development; strings are appended with `+++` *)
+Infix "+++" := String.append (right associativity, at level 60).
 
 (* Error values returned by the implementation: a kind and the names it carries. *)
 Record err := mkErr { e_kind : string; e_args : list string }.
@@ -55,7 +58,7 @@ Definition hex_byte (b : N) : string :=
 Fixpoint hex_bytes (bs : list N) : string :=
   match bs with
   | [] => EmptyString
-  | b :: r => hex_byte b ++ hex_bytes r
+  | b :: r => hex_byte b +++ hex_bytes r
   end.
 
 (* decimal rendering of an N, by fuel on the number of digits *)
@@ -72,7 +75,7 @@ Definition dec_of_Z (z : Z) : string :=
   match z with
   | Z0 => "0"
   | Zpos p => dec_of_N (Npos p)
-  | Zneg p => "-" ++ dec_of_N (Npos p)
+  | Zneg p => "-" +++ dec_of_N (Npos p)
   end.
 
 Definition show_bool (b : bool) : string := if b then "1" else "0".
@@ -81,15 +84,15 @@ Fixpoint join (sep : string) (l : list string) : string :=
   match l with
   | [] => EmptyString
   | [x] => x
-  | x :: r => x ++ sep ++ join sep r
+  | x :: r => x +++ sep +++ join sep r
   end.
 
 (* canonical rendering of results for the correspondence check *)
 Definition show_res {A} (show : A -> string) (r : res A) : string :=
   match r with
-  | Ok a => "ok:" ++ show a
-  | Err e => "err:" ++ e_kind e ++ "(" ++ join "," (e_args e) ++ ")"
-  | Panic s => "panic:" ++ s
+  | Ok a => "ok:" +++ show a
+  | Err e => "err:" +++ e_kind e +++ "(" +++ join "," (e_args e) +++ ")"
+  | Panic s => "panic:" +++ s
   end.
 
 (* ---------- list helpers ---------- *)
@@ -126,4 +129,4 @@ Fixpoint be_bytes_fuel (fuel : nat) (n : N) (acc : list N) : list N :=
 Definition be_bytes (n : N) : list N := be_bytes_fuel (S (N.to_nat (N.size n))) n [].
 
 Definition pad_left (len : nat) (bs : list N) : list N :=
-  (repeat 0%N (len - length bs) ++ bs)%list.
+  (repeat 0%N (len - length bs) ++ bs).
